@@ -1,6 +1,7 @@
 #!/bin/bash
 # Build the hand-written Coq library (offline, from files on disk only).
-#   ./setup.sh                 build everything (keeps going past a failing file; fails if any file failed)
+#   ./setup.sh                 build everything (keeps going past a failing file); fails only if a file needed by a
+#                              property claimed in MANIFEST.json does not build
 #   ./setup.sh --targets "a.vo b.vo"   what a check runs first: rebuild just what that property needs, if stale
 cd "$(dirname "$0")/coq" || exit 1
 { echo "-Q . PW"; echo "-arg -w -arg -all"; find . -name '*.v' | sed 's|^\./||' | LC_ALL=C sort; } > _CoqProject.new
@@ -16,8 +17,13 @@ if [ "$1" = "--targets" ]; then
   rm -f .make.$$.log
   exit $rc
 fi
-timeout 3000 make -j16 -k > .make.log 2>&1; rc=$?
-[ $rc -ne 0 ] && { grep -B2 -A12 'Error' .make.log | head -80; }
+timeout 3000 make -j16 -k > .make.log 2>&1 || { echo "some library files do not build:"; grep -A8 '^File\|Error' .make.log | head -60; }
+claimed=$(/venv/bin/python -c "
+import json
+m = json.load(open('../MANIFEST.json'))
+print(' '.join('props/%s.vo corr/K_%s.vo' % (c['property_id'], c['property_id']) for c in m['checks']))")
+timeout 3000 make -j16 $claimed > .make.claimed.log 2>&1; rc=$?
+[ $rc -ne 0 ] && tail -40 .make.claimed.log
 cd ..
 # jsonschema (for C19 only) from the offline wheelhouse into a /verif-local directory
 if [ ! -d .deps/jsonschema ]; then
